@@ -45,7 +45,7 @@ pub trait Shape: Sized + 'static {
     fn pmnull(p: &mut Self::PM, j: &mut i64);
     /// pop / push / clear one leaf array directly through the public fields (desynchronise)
     fn desync(v: &mut Self::V, j: &mut i64, what: &str, id: u32);
-    fn nleaves() -> usize { let mut s = String::new(); Self::desc(&mut s); s.chars().filter(|c| "zbslh".contains(*c)).count() }
+    fn nleaves() -> usize { let mut s = String::new(); Self::desc(&mut s); s.chars().filter(|c| "zbslhp".contains(*c)).count() }
 }
 
 #[macro_export]
@@ -155,6 +155,11 @@ shape!(DrH, DrHVec, DrHSlice, DrHSliceMut, DrHRef, DrHRefMut, DrHPtr, DrHPtrMut,
 soa_struct!(noclone, pub struct DrN { pub a: Tk<0>, #[nested_soa] pub n: Inner });
 impl Drop for DrN { fn drop(&mut self) { struct_dropped(self.a.id) } }
 shape!(DrN, DrNVec, DrNSlice, DrNSliceMut, DrNRef, DrNRefMut, DrNPtr, DrNPtrMut, drops=true, [(a leaf Tk<0>), (n nested Inner)]);
+
+// a `Drop` struct made of plain data only: no field needs dropping, the struct still does
+soa_struct!(noclone, pub struct DrP { pub a: Pl, pub b: Pl });
+impl Drop for DrP { fn drop(&mut self) { struct_dropped(self.a.0) } }
+shape!(DrP, DrPVec, DrPSlice, DrPSliceMut, DrPRef, DrPRefMut, DrPPtr, DrPPtrMut, drops=true, [(a leaf Pl), (b leaf Pl)]);
 
 // nested SoA in first / middle / last position, two levels deep, and the flattened twins
 soa_struct!(clone, pub struct NFirst { #[nested_soa] pub n: Inner, pub c: Tk<4> });
